@@ -56,7 +56,15 @@ fn shape_set(v: usize, k: i64) -> Vec<SShape> {
         1 => vec![],
         2 => vec![s(0, 0, SGeom::Rect((10, 5), (40, 25)), None)],
         3 => vec![s(1, 1, SGeom::Rect((40, 25), (10, 5)), Some("Rev")), s(1, 1, SGeom::Poly(l_shape((0, 100))), None), s(1, 1, SGeom::Path(vec![(0, 200), (40, 200)], 2), Some("Rev"))],
-        _ => vec![s(0, 1, SGeom::Poly(vec![(0, 0), (0, 50), (20, 50), (20, 20), (60, 20), (60, 0)]), Some("cw")), s(0, 0, SGeom::Rect((-40, -25), (-10, -5)), Some("neg"))],
+        4 => vec![s(0, 1, SGeom::Poly(vec![(0, 0), (0, 50), (20, 50), (20, 20), (60, 20), (60, 0)]), Some("cw")), s(0, 0, SGeom::Rect((-40, -25), (-10, -5)), Some("neg"))],
+        // rectangles given by every choice of opposite corners (lower-left/upper-right, the reverse, upper-left/lower-right,
+        // lower-right/upper-left), at positive and negative coordinates, plus degenerate ones
+        _ => vec![
+            s(0, 0, SGeom::Rect((-10, 25), (30, 5)), Some("ullr")),
+            s(0, 0, SGeom::Rect((30, 105), (-10, 125)), None),
+            s(1, 0, SGeom::Rect((-30, -5), (-70, -45)), Some("urll")),
+            s(1, 1, SGeom::Rect((200, 0), (200, 40)), None),
+        ],
     }
 }
 
@@ -114,8 +122,8 @@ fn gen(four: bool, c: &mut Chooser) -> Case {
                 let first = lay.insts[0].clone();
                 lay.insts.push(SInst { name: "again".into(), loc: (first.loc.0 + 1, first.loc.1 + 1), reflect: false, angle: Some(0.0), ..first });
             }
-            let sv = c.cost(5, "shape-set");
-            tags.push(["shapes:interleaved-all-kinds", "shapes:none", "shapes:single-rect", "shapes:one-layer-purpose", "shapes:cw-polygon+negative-rect"][sv]);
+            let sv = c.cost(6, "shape-set");
+            tags.push(["shapes:interleaved-all-kinds", "shapes:none", "shapes:single-rect", "shapes:one-layer-purpose", "shapes:cw-polygon+negative-rect", "shapes:rects-by-every-corner-pair"][sv]);
             lay.shapes = shape_set(sv, i as i64);
             let an = c.cost(3, "annotations");
             tags.push(["annotations:1", "annotations:0", "annotations:2"][an]);
@@ -512,7 +520,7 @@ impl CaseDriver for C14 {
             stats,
             &[
                 "cells:1", "cells:2", "cells:3", "views:layout", "views:layout+abstract", "views:abstract", "dag:shared-dependency", "dag:chain", "order:not-dependencies-first-or-last", "shapes:interleaved-all-kinds", "shapes:none", "shapes:one-layer-purpose",
-                "shapes:cw-polygon+negative-rect", "annotations:0", "annotations:2", "ports:0", "ports:2-second-on-2-layers", "blockages:0", "blockages:2-layers", "inst:angle-Some(0)+second-placement",
+                "shapes:cw-polygon+negative-rect", "shapes:rects-by-every-corner-pair", "annotations:0", "annotations:2", "ports:0", "ports:2-second-on-2-layers", "blockages:0", "blockages:2-layers", "inst:angle-Some(0)+second-placement",
             ],
         )?;
         require_outcomes(stats, &["ok"])
